@@ -99,6 +99,12 @@ def add_adjacent_partners(r, ref, t, vs):
             continue
         if w and not any(x['start'] < w['end'] and w['start'] < x['end'] for x in out):
             out.append(w)
+            if r.random() < 0.45:
+                # a second record starting on the same base as the partner (another allele, or an indel anchored there)
+                u = cvgen.small_variant(r, ref, t, seq, pos, r.choice(['SNV', 'SNV', 'INS', 'DEL']))
+                if u and not cvgen.overlaps_any(u, out) and \
+                        not any(x['start'] < u['end'] and u['start'] < x['end'] for x in out if x is not w):
+                    out.append(u)
     return out
 
 
@@ -122,6 +128,12 @@ def make_case(r, mode, work, idx, tier):
         u5 = r.randrange(3, 10)
         seq = refgen.rand_dna(r, u5) + refgen.encode(r, prot) + r.choice(refgen.STOPS) + refgen.rand_dna(r, r.randrange(6, 15))
         b.add_gene(seq, r.choice([1, -1]), r.randrange(1, 3), True, u5, u5 + 3 * len(prot) + 3, (), (), prot)
+        ref = b.finish()
+    elif mode == 'sect' and r.random() < 0.5:
+        # selenoprotein with two Sec codons (a length-changing variant between them moves the second one)
+        b = refgen.Builder(r)
+        seq, cs, ce, secs, prot = refgen.make_coding_tx_seq(r, r.randrange(16, 30), r.randrange(3, 10), r.randrange(6, 16), sec=2)
+        b.add_gene(seq, r.choice([1, -1]), r.randrange(1, 3), True, cs, ce, secs, (), prot)
         ref = b.finish()
     elif mode == 'as':
         # multi-exon transcript with introns long enough to donate inserted / substituted segments
@@ -161,7 +173,18 @@ def make_case(r, mode, work, idx, tier):
             cand = [cvgen.small_variant(r, ref, t, seq, sp - 1, 'SNV'),
                     cvgen.small_variant(r, ref, t, seq, r.randrange(max(t.cds_start + 3, sp - 18), sp - 2), r.choice(['SNV', 'SNV', 'INS', 'DEL']))
                     if sp - 2 > max(t.cds_start + 3, sp - 18) else None]
+            if len(t.sec) >= 2 and t.sec[1] - t.sec[0] > 8:
+                # an in-frame insertion / deletion between the two Sec codons
+                for _ in range(12):
+                    w = cvgen.small_variant(r, ref, t, seq, r.randrange(t.sec[0] + 3, t.sec[1] - 4), r.choice(['INS', 'DEL']))
+                    if w and abs(len(w['ref']) - len(w['alt'])) == 3 and w['end'] < t.sec[1]:
+                        cand.append(w); break
             cand = [v for v in cand if v]
+            keep = []
+            for v in cand:
+                if not any(x['start'] <= v['end'] and v['start'] <= x['end'] for x in keep):
+                    keep.append(v)
+            cand = keep
             vs = cand + [v for v in vs if not any(x['start'] <= v['end'] and v['start'] <= x['end'] for x in cand)]
         asr = []
         if mode == 'as':
@@ -621,6 +644,9 @@ def check_c03(tier):
                 elif cls == 'names_overlapping':
                     rep.violation('header_names_overlapping_variants', f"header entries {labels[:4]} name variants whose reference spans "
                                   f"overlap; a compatible subset of them produces the peptide", ro)
+                elif cls == 'names_unused_partner':
+                    rep.violation('header_names_unused_adjacent_partner', f"header entries {labels[:4]} also name the upstream member of "
+                                  f"a merged adjacent pair that the peptide does not carry", ro)
                 elif cls == 'context_witness' and (it['cfg']['rule'] in LOOKBEHIND or it['cfg']['exc']):
                     rep.violation(known_key(it, 'context'), f"header entries {labels[:4]} are not witnesses (context-dependent rule)", ro)
                 else:
@@ -689,7 +715,8 @@ def check_c05(tier):
     r = env.rng('c05')
     items = [it for it in campaign(rep, tier, work) if it['mode'] in ('base', 'nc', 'sec', 'multi', 'startnf', 'nf', 'sect', 'adj', 'stop')]
     r.shuffle(items)
-    items = items[:56 if tier == 'quick' else 1600]
+    adj_items = [it for it in items if it['mode'] == 'adj'][:12 if tier == 'quick' else 300]
+    items = adj_items + [it for it in items if it['mode'] != 'adj'][:(56 if tier == 'quick' else 1600) - len(adj_items)]
     jobs_, meta = [], []
 
     def add(it, kind, a_args, b_args, a_cfg, added=''):
@@ -719,11 +746,12 @@ def check_c05(tier):
         lines = open(gvf).read().splitlines(keepends=True)
         recs = [j for j, l in enumerate(lines) if not l.startswith('#')]
         if len(recs) >= 2:
-            drop = r.choice(recs)
-            vid = lines[drop].split('\t')[2]
-            g2 = gvf.replace('.gvf', '_less.gvf')
-            open(g2, 'w').write(''.join(l for j, l in enumerate(lines) if j != drop))
-            add(it, 'variant', dict(a, input_path=[g2], **outb('less')), a, sc, added=vid)
+            # one record less; for inputs with adjacent / same-site records every record in turn
+            for drop in (recs if it['mode'] == 'adj' else [r.choice(recs)]):
+                vid = lines[drop].split('\t')[2]
+                g2 = gvf.replace('.gvf', f'_less{drop}.gvf')
+                open(g2, 'w').write(''.join(l for j, l in enumerate(lines) if j != drop))
+                add(it, 'variant', dict(a, input_path=[g2] + list(a['input_path'][1:]), **outb('less')), a, sc, added=vid)
     # demo data: large inputs
     demo = dict(callrun.DEMO_REF)
     dd = os.path.join(work, 'demo'); os.makedirs(dd, exist_ok=True)
@@ -802,7 +830,7 @@ def check_c05(tier):
         else:
             txs = [t['tx'] for t in m['it']['case']['txs']] if m['it'].get('case') else []
             cases.append(dict(kind=kind, a=m['a'], b=m['a'], outA=fasta_case(xa['fasta']), outB=fasta_case(xb['fasta']), added=m['added'],
-                              txs=txs if kind == 'sect' else []))
+                              txs=txs if kind in ('sect', 'w2f') else []))
         grew = len({s for _, s in xb['fasta']} - {s for _, s in xa['fasta']}) > 0
         info.append((key, m, grew, xa, xb))
     verdicts = tlc_cases('MonotoneTrace', cases, work, 'mono', rep)
@@ -823,6 +851,8 @@ def check_c05(tier):
                       variants=m['it'].get('variants'))
             if kd == 'lost_sect_reference':
                 rep.violation('sect_drops_reference_sec_truncation', what, ro)
+            elif kd == 'lost_w2f_reference':
+                rep.violation('w2f_drops_reference_w2f_image', what, ro)
             elif kd == 'unattributable' and m['kind'] == 'variant' and m['it'].get('case', {}).get('txs'):
                 pending.append((key, m, xb, peps, what, ro))
             elif rule in LOOKBEHIND or exc:
